@@ -56,8 +56,9 @@ class ObjRef:
 
 
 class Closure:
-    def __init__(self, loc):
+    def __init__(self, loc, caps=None):
         self.loc = loc
+        self.f = list(caps or [])
 
     def __repr__(self):
         return "Closure(%s)" % self.loc
@@ -337,6 +338,8 @@ class Executor:
             elif p[0] == "field":
                 if isinstance(v, Tup):
                     v = v.f[p[1]]
+                elif isinstance(v, Closure):
+                    v = v.f[p[1]]
                 elif isinstance(v, Enum):
                     raise Unsupported("field of enum without downcast")
                 elif isinstance(v, tuple) and v[0] == "variant":
@@ -563,7 +566,8 @@ class Executor:
         if k == "tuple":
             return Tup([self.operand(stack, frame, o) for o in rv.args[0]])
         if k == "closure":
-            return Closure(rv.args[0])
+            caps = [self.operand(stack, frame, o) for (_, o) in (rv.args[1] if len(rv.args) > 1 else [])]
+            return Closure(rv.args[0], caps)
         if k == "array":
             return Opaque("array")
         if k == "adt":
@@ -702,6 +706,13 @@ class Executor:
                         for (c, val) in r[1]:
                             s2 = [f.clone() for f in stk]
                             work.append((s2, cnd + [c], (t.a["dest"], val, t.a["target"])))
+                        break
+                    if r[0] == "forkx":
+                        # fork where each branch applies its own action to the cloned stack (e.g. enters a closure body)
+                        for (c, act) in r[1]:
+                            s2 = [f.clone() for f in stk]
+                            act(s2)
+                            work.append((s2, cnd + [c], None))
                         break
                 raise Unsupported("terminator " + t.kind)
         return ends
